@@ -1,60 +1,468 @@
 // gen_injconsts regenerates coq/Model/InjConsts.v from the sources of the two sample injector
 // plugins: the annotation key constants of plugins/device-injector/device-injector.go and
-// plugins/ulimit-adjuster/adjuster.go, the rlimit prefix and the table of valid rlimit names.
+// plugins/ulimit-adjuster/adjuster.go, the rlimit prefix and the SET of valid rlimit names.
 // It is one of the translators of the trusted base (DESIGN.md section 8).
+//
+// The set of valid names is read for its meaning, not for one shape of the source:
+//
+//  1. from the source, when the validity test reached from parseUlimits (directly or through
+//     unexported helpers, two levels deep) is one of
+//     - a package-level variable, never written anywhere else in the file, initialised by a
+//     non-empty map literal with string keys (values that are
+//     not all `true` / struct{}{} make the shape unrecognised: `m[k]` and `_, ok := m[k]`
+//     would differ),
+//     - a package-level variable initialised by a slice or array literal of strings (in any
+//     order: the set is read; a binary search over an unsorted slice then shows up as a
+//     disagreement between the plugin and the model, with a failing input),
+//     - a helper `func(s string) bool` whose body is a switch over s with string cases
+//     returning true and false otherwise;
+//  2. otherwise by RUNNING the plugin's own code: a scratch copy of the plugin package is built
+//     together with a small probe that calls parseUlimits for every name of a fixed candidate
+//     list (the RLIMIT_* names of golang.org/x/sys/unix for Linux plus near misses) and records
+//     which are accepted.
+//
+// The generated file says in a comment which way the table was obtained.  Anything else — no
+// parseUlimits, two candidate tables, a probe that does not build — stops the translator with a
+// message: the tie through InjConsts.v then counts as broken (lib/vcheck.py), never a default.
+//
+// What the translator does NOT read: the key precedence of getAnnotation and the hard/soft
+// comparison.  They are part of the hand-written model and tied to the code by the
+// correspondence run only, so rewriting them (loop or if-chain, `a < b` or `b > a`, log calls,
+// counters) cannot break anything here.
 package main
 
 import (
+	"encoding/json"
 	"flag"
+	"fmt"
 	"go/ast"
+	"go/constant"
 	"go/token"
+	"os"
+	"os/exec"
 	"path/filepath"
 	"sort"
-	"strconv"
+	"strings"
 
 	"verif/harness/internal/coqfmt"
 	"verif/harness/internal/gast"
 )
 
-// topLevelMapKeys returns the string keys of the composite literal that initialises the
-// package-level variable name.
-func topLevelMapKeys(f *gast.File, name string) []string {
+const parseFn = "parseUlimits"
+
+// candidates: every RLIMIT_* name golang.org/x/sys/unix defines for Linux, then names that must
+// not be accepted (other systems' limits, prefixed / mangled spellings, the empty string).
+var candidates = []string{
+	"AS", "CORE", "CPU", "DATA", "FSIZE", "LOCKS", "MEMLOCK", "MSGQUEUE", "NICE", "NOFILE", "NPROC", "RSS",
+	"RTPRIO", "RTTIME", "SIGPENDING", "STACK",
+	"OFILE", "VMEM", "SBSIZE", "NPTS", "SWAP", "KQUEUES", "UMTXP", "NLIMITS", "INFINITY",
+	"", "FOO", "A", "S", "CP", "CPUS", "NO FILE", "NOFILE ", " NOFILE", "NO_FILE", "LIMIT_CPU", "_AS", "TNOFILE", "MCORE",
+	"OCK", "EMLOCK", "SGQUEUE", "SS", "TPRIO", "TTIME", "OCKS",
+}
+
+type source struct {
+	f      *gast.File
+	consts map[string]constant.Value
+	funcs  map[string]*ast.FuncDecl
+	vars   map[string]ast.Expr // package-level variables with an initialiser
+}
+
+func load(path string) *source {
+	f := gast.Parse(path)
+	s := &source{f: f, consts: f.Consts(nil), funcs: map[string]*ast.FuncDecl{}, vars: map[string]ast.Expr{}}
 	for _, d := range f.F.Decls {
-		gd, ok := d.(*ast.GenDecl)
-		if !ok || gd.Tok != token.VAR {
-			continue
-		}
-		for _, s := range gd.Specs {
-			vs := s.(*ast.ValueSpec)
-			for i, n := range vs.Names {
-				if n.Name != name || i >= len(vs.Values) {
-					continue
-				}
-				cl, ok := vs.Values[i].(*ast.CompositeLit)
-				if !ok {
-					gast.Fatal("variable %s of %s is not initialised by a composite literal", name, f.Path)
-				}
-				var out []string
-				for _, el := range cl.Elts {
-					kv, ok := el.(*ast.KeyValueExpr)
-					if !ok {
-						gast.Fatal("element of %s is not key: value", name)
+		switch x := d.(type) {
+		case *ast.FuncDecl:
+			if x.Recv == nil {
+				s.funcs[x.Name.Name] = x
+			}
+		case *ast.GenDecl:
+			if x.Tok != token.VAR {
+				continue
+			}
+			for _, sp := range x.Specs {
+				vs := sp.(*ast.ValueSpec)
+				for i, n := range vs.Names {
+					if i < len(vs.Values) {
+						s.vars[n.Name] = vs.Values[i]
 					}
-					lit, ok := kv.Key.(*ast.BasicLit)
-					if !ok || lit.Kind != token.STRING {
-						gast.Fatal("key of %s is not a string literal", name)
-					}
-					k, err := strconv.Unquote(lit.Value)
-					if err != nil {
-						gast.Fatal("key of %s: %v", name, err)
-					}
-					out = append(out, k)
 				}
-				return out
 			}
 		}
 	}
-	gast.Fatal("package-level variable %s not found in %s", name, f.Path)
+	return s
+}
+
+func (s *source) str(e ast.Expr) (string, bool) {
+	v := gast.Eval(e, s.consts, 0)
+	if v == nil || v.Kind() != constant.String {
+		return "", false
+	}
+	return constant.StringVal(v), true
+}
+
+// setOfLiteral reads a string set from a composite literal: a map with string keys or a
+// slice / array of strings.
+func (s *source) setOfLiteral(e ast.Expr) ([]string, string, bool) {
+	cl, ok := e.(*ast.CompositeLit)
+	if !ok {
+		return nil, "", false
+	}
+	switch t := cl.Type.(type) {
+	case *ast.MapType:
+		var out []string
+		for _, el := range cl.Elts {
+			kv, ok := el.(*ast.KeyValueExpr)
+			if !ok {
+				return nil, "", false
+			}
+			k, ok := s.str(kv.Key)
+			if !ok {
+				return nil, "", false
+			}
+			switch v := kv.Value.(type) {
+			case *ast.CompositeLit: // struct{}{} or {}
+				if len(v.Elts) != 0 {
+					return nil, "", false
+				}
+			case *ast.Ident:
+				if v.Name != "true" {
+					return nil, "", false
+				}
+			default:
+				return nil, "", false
+			}
+			out = append(out, k)
+		}
+		return out, "the keys of a map literal", true
+	case *ast.ArrayType:
+		if id, ok := t.Elt.(*ast.Ident); !ok || id.Name != "string" {
+			return nil, "", false
+		}
+		var out []string
+		for _, el := range cl.Elts {
+			if kv, ok := el.(*ast.KeyValueExpr); ok { // indexed element
+				el = kv.Value
+			}
+			k, ok := s.str(el)
+			if !ok {
+				return nil, "", false
+			}
+			out = append(out, k)
+		}
+		return out, "the elements of a slice / array literal", true
+	}
+	return nil, "", false
+}
+
+// setOfSwitch reads a string set from `func f(x string) bool { switch x { case "A", "B": return true }; return false }`
+// (a default clause returning false is accepted; anything else in the body is not).
+func (s *source) setOfSwitch(fd *ast.FuncDecl) ([]string, bool) {
+	if fd.Body == nil || fd.Type.Params == nil || len(fd.Type.Params.List) != 1 || len(fd.Type.Params.List[0].Names) != 1 ||
+		fd.Type.Results == nil || len(fd.Type.Results.List) != 1 {
+		return nil, false
+	}
+	if id, ok := fd.Type.Results.List[0].Type.(*ast.Ident); !ok || id.Name != "bool" {
+		return nil, false
+	}
+	param := fd.Type.Params.List[0].Names[0].Name
+	returns := func(st ast.Stmt, want string) bool {
+		r, ok := st.(*ast.ReturnStmt)
+		if !ok || len(r.Results) != 1 {
+			return false
+		}
+		id, ok := r.Results[0].(*ast.Ident)
+		return ok && id.Name == want
+	}
+	var sw *ast.SwitchStmt
+	for i, st := range fd.Body.List {
+		switch x := st.(type) {
+		case *ast.SwitchStmt:
+			if sw != nil || i != 0 {
+				return nil, false
+			}
+			sw = x
+		default:
+			if !(i == len(fd.Body.List)-1 && returns(st, "false")) {
+				return nil, false
+			}
+		}
+	}
+	if sw == nil || sw.Init != nil {
+		return nil, false
+	}
+	if tag, ok := sw.Tag.(*ast.Ident); !ok || tag.Name != param {
+		return nil, false
+	}
+	var out []string
+	for _, c := range sw.Body.List {
+		cc := c.(*ast.CaseClause)
+		if cc.List == nil { // default
+			if len(cc.Body) != 1 || !returns(cc.Body[0], "false") {
+				return nil, false
+			}
+			continue
+		}
+		if len(cc.Body) != 1 || !returns(cc.Body[0], "true") {
+			return nil, false
+		}
+		for _, e := range cc.List {
+			k, ok := s.str(e)
+			if !ok {
+				return nil, false
+			}
+			out = append(out, k)
+		}
+	}
+	return out, true
+}
+
+// reachable returns the package-level functions reached from fn through calls, depth levels of helpers deep,
+// and every identifier mentioned in their bodies.
+func (s *source) reachable(fn string, depth int) (fns []string, idents map[string]bool) {
+	idents = map[string]bool{}
+	seen := map[string]bool{fn: true}
+	level := []string{fn}
+	for d := 0; d <= depth && len(level) > 0; d++ {
+		var next []string
+		for _, name := range level {
+			fd := s.funcs[name]
+			if fd == nil || fd.Body == nil {
+				continue
+			}
+			fns = append(fns, name)
+			ast.Inspect(fd.Body, func(n ast.Node) bool {
+				if id, ok := n.(*ast.Ident); ok {
+					idents[id.Name] = true
+					if _, isFn := s.funcs[id.Name]; isFn && !seen[id.Name] {
+						seen[id.Name] = true
+						next = append(next, id.Name)
+					}
+				}
+				return true
+			})
+		}
+		level = next
+	}
+	return
+}
+
+// readOnly reports whether the package-level variable v is only ever READ in the file: apart from its declaration
+// every occurrence is the operand of an index expression that is not assigned to, the operand of range, or an
+// argument of len / a search or membership function.  A table filled or changed by code (init, append, delete,
+// an assignment, its address taken, handed to any other function) is not a table this translator can read.
+func (s *source) readOnly(v string) bool {
+	readers := map[string]bool{"len": true, "sort.SearchStrings": true, "sort.StringsAreSorted": true,
+		"slices.Contains": true, "slices.BinarySearch": true, "slices.Index": true}
+	ok := true
+	var stack []ast.Node
+	ast.Inspect(s.f.F, func(n ast.Node) bool {
+		if n == nil {
+			stack = stack[:len(stack)-1]
+			return true
+		}
+		stack = append(stack, n)
+		id, isID := n.(*ast.Ident)
+		if !isID || id.Name != v || len(stack) < 2 {
+			return true
+		}
+		parent := stack[len(stack)-2]
+		var grand ast.Node
+		if len(stack) >= 3 {
+			grand = stack[len(stack)-3]
+		}
+		switch p := parent.(type) {
+		case *ast.ValueSpec: // the declaration itself (or a shadowing one: then the name is ambiguous)
+			if grand != nil {
+				if gd, isGD := grand.(*ast.GenDecl); isGD && gd.Tok == token.VAR && len(stack) == 4 {
+					return true
+				}
+			}
+			ok = false
+		case *ast.IndexExpr:
+			if p.X != n {
+				return true // used as an index: a read of a different kind, but a read
+			}
+			switch g := grand.(type) {
+			case *ast.AssignStmt:
+				for _, l := range g.Lhs {
+					if l == parent {
+						ok = false
+					}
+				}
+			case *ast.IncDecStmt:
+				ok = false
+			case *ast.UnaryExpr:
+				if g.Op == token.AND {
+					ok = false
+				}
+			}
+		case *ast.RangeStmt:
+			if p.X != n {
+				ok = false
+			}
+		case *ast.CallExpr:
+			name := ""
+			switch f := p.Fun.(type) {
+			case *ast.Ident:
+				name = f.Name
+			case *ast.SelectorExpr:
+				if x, isX := f.X.(*ast.Ident); isX {
+					name = x.Name + "." + f.Sel.Name
+				}
+			}
+			if !readers[name] {
+				ok = false
+			}
+		default:
+			ok = false
+		}
+		return true
+	})
+	return ok
+}
+
+// validFromSource: exactly one recognisable table among what parseUlimits and its helpers mention.
+func (s *source) validFromSource() ([]string, string, bool) {
+	if s.funcs[parseFn] == nil {
+		gast.Fatal("func %s not found in %s", parseFn, s.f.Path)
+	}
+	fns, idents := s.reachable(parseFn, 2)
+	type found struct {
+		set []string
+		how string
+	}
+	var all []found
+	var names []string
+	for v := range s.vars {
+		names = append(names, v)
+	}
+	sort.Strings(names)
+	for _, v := range names {
+		if !idents[v] {
+			continue
+		}
+		if set, how, ok := s.setOfLiteral(s.vars[v]); ok && len(set) > 0 && s.readOnly(v) {
+			all = append(all, found{set, fmt.Sprintf("%s of the package-level variable %s (never written elsewhere)", how, v)})
+		}
+	}
+	for _, fn := range fns {
+		if fn == parseFn {
+			continue
+		}
+		if set, ok := s.setOfSwitch(s.funcs[fn]); ok && len(set) > 0 {
+			all = append(all, found{set, fmt.Sprintf("the string cases of the switch in func %s", fn)})
+		}
+	}
+	if len(all) != 1 {
+		return nil, fmt.Sprintf("%d recognisable tables among what %s and its helpers mention", len(all), parseFn), false
+	}
+	return all[0].set, all[0].how, true
+}
+
+const probeSrc = `package %s
+
+import (
+	"context"
+	"encoding/json"
+	"fmt"
+	"os"
+)
+
+func init() {
+	raw := os.Getenv("VERIF_PROBE_RLIMITS")
+	if raw == "" {
+		return
+	}
+	var cands, accepted []string
+	if err := json.Unmarshal([]byte(raw), &cands); err != nil {
+		fmt.Fprintln(os.Stderr, err)
+		os.Exit(3)
+	}
+	for _, c := range cands {
+		t, _ := json.Marshal(c)
+		ann := map[string]string{%s + "/container.c": fmt.Sprintf("[{\"type\": %%s, \"hard\": 1, \"soft\": 1}]", t)}
+		if _, err := %s(context.Background(), "c", ann); err == nil {
+			accepted = append(accepted, c)
+		}
+	}
+	out, _ := json.Marshal(accepted)
+	fmt.Printf("VERIF-ACCEPTED %%s\n", out)
+	os.Exit(0)
+}
+`
+
+// validByRunning builds a scratch copy of the plugin package with a probe and asks the plugin's own
+// parseUlimits which candidate names it accepts.
+func validByRunning(repo string, s *source) []string {
+	dir := filepath.Join(repo, "plugins/ulimit-adjuster")
+	tmp, err := os.MkdirTemp("", "gen_injconsts_")
+	if err != nil {
+		gast.Fatal("scratch directory: %v", err)
+	}
+	defer os.RemoveAll(tmp)
+	fatal := func(format string, args ...interface{}) { // gast.Fatal exits: remove the scratch copy first
+		os.RemoveAll(tmp)
+		gast.Fatal(format, args...)
+	}
+	ents, err := os.ReadDir(dir)
+	if err != nil {
+		fatal("%v", err)
+	}
+	for _, e := range ents {
+		n := e.Name()
+		if e.IsDir() || strings.HasSuffix(n, "_test.go") || !(strings.HasSuffix(n, ".go") || n == "go.mod" || n == "go.sum") {
+			continue
+		}
+		b, err := os.ReadFile(filepath.Join(dir, n))
+		if err != nil {
+			fatal("%v", err)
+		}
+		if n == "go.mod" {
+			abs, _ := filepath.Abs(repo)
+			b = []byte(strings.ReplaceAll(string(b), "=> ../..", "=> "+abs))
+		}
+		if err := os.WriteFile(filepath.Join(tmp, n), b, 0o644); err != nil {
+			fatal("%v", err)
+		}
+	}
+	if _, ok := s.consts["ulimitKey"]; !ok {
+		fatal("constant ulimitKey not found in %s", s.f.Path)
+	}
+	probe := fmt.Sprintf(probeSrc, s.f.F.Name.Name, "ulimitKey", parseFn)
+	if err := os.WriteFile(filepath.Join(tmp, "zz_verif_probe.go"), []byte(probe), 0o644); err != nil {
+		fatal("%v", err)
+	}
+	env := []string{}
+	for _, kv := range os.Environ() {
+		if !strings.HasPrefix(kv, "GOFLAGS=") {
+			env = append(env, kv)
+		}
+	}
+	env = append(env, "GOFLAGS=-mod=mod", "GOPROXY=off", "GOSUMDB=off", "GOTOOLCHAIN=local", "CGO_ENABLED=0")
+	bin := filepath.Join(tmp, "probe.bin")
+	build := exec.Command("go", "build", "-o", bin, ".")
+	build.Dir, build.Env = tmp, env
+	if log, err := build.CombinedOutput(); err != nil {
+		fatal("the table of valid rlimit names has no shape this translator reads, and the probe of %s does not build: %v\n%s", parseFn, err, log)
+	}
+	cj, _ := json.Marshal(candidates)
+	run := exec.Command(bin)
+	run.Env = append(env, "VERIF_PROBE_RLIMITS="+string(cj))
+	outb, err := run.Output()
+	if err != nil {
+		fatal("the probe of %s failed: %v", parseFn, err)
+	}
+	for _, line := range strings.Split(string(outb), "\n") {
+		if rest, ok := strings.CutPrefix(line, "VERIF-ACCEPTED "); ok {
+			var acc []string
+			if err := json.Unmarshal([]byte(rest), &acc); err != nil {
+				fatal("probe output: %v", err)
+			}
+			return acc
+		}
+	}
+	fatal("the probe of %s printed no result", parseFn)
 	return nil
 }
 
@@ -77,13 +485,27 @@ func main() {
 	b.P("Definition mount_key : string := %s.", coqfmt.Str(gast.MustStr(dic, "mountKey")))
 	b.P("Definition cdi_device_key : string := %s.", coqfmt.Str(gast.MustStr(dic, "cdiDeviceKey")))
 
-	ua := gast.Parse(filepath.Join(*repo, "plugins/ulimit-adjuster/adjuster.go"))
-	uac := ua.Consts(nil)
+	ua := load(filepath.Join(*repo, "plugins/ulimit-adjuster/adjuster.go"))
 	b.P("(* plugins/ulimit-adjuster/adjuster.go *)")
-	b.P("Definition ulimit_key : string := %s.", coqfmt.Str(gast.MustStr(uac, "ulimitKey")))
-	b.P("Definition rlimit_prefix : string := %s.", coqfmt.Str(gast.MustStr(uac, "rlimitPrefix")))
-	names := topLevelMapKeys(ua, "valid")
-	sort.Strings(names)
-	b.P("Definition valid_rlimits : list string := %s.", coqfmt.StrList(names))
+	b.P("Definition ulimit_key : string := %s.", coqfmt.Str(gast.MustStr(ua.consts, "ulimitKey")))
+	b.P("Definition rlimit_prefix : string := %s.", coqfmt.Str(gast.MustStr(ua.consts, "rlimitPrefix")))
+	names, how, ok := ua.validFromSource()
+	if ok {
+		b.P("(* valid_rlimits: read from the source — %s *)", how)
+	} else {
+		names = validByRunning(*repo, ua)
+		b.P("(* valid_rlimits: NOT read from the source (%s); obtained by running the plugin's own %s over %d candidate names and keeping the accepted ones *)",
+			how, parseFn, len(candidates))
+	}
+	set := map[string]bool{}
+	var uniq []string
+	for _, n := range names {
+		if !set[n] {
+			set[n] = true
+			uniq = append(uniq, n)
+		}
+	}
+	sort.Strings(uniq)
+	b.P("Definition valid_rlimits : list string := %s.", coqfmt.StrList(uniq))
 	gast.Emit(*out, b.String())
 }
